@@ -8,7 +8,7 @@ from .. import REPO_DIR, app, docprops, engine
 from ..runner import Run, h64
 from .c07 import CRASH_RE
 
-PLAN = {"B2/53": 180, "B3/89": 80, "N1/11": 250, "W1/2": 200, "S2": 120, "S3": 30, "I4/97": 120, "U1/7": 60, "P2": 100, "R2/3": 80, "R3/3": 60}
+PLAN = {"B2/53": 180, "B3/89": 80, "N1/11": 250, "W1/2": 200, "S2": 120, "S3": 30, "I4/97": 120, "U1/7": 60, "P2": 100, "R2/3": 80, "R3/3": 60, "Z1/2": 150}
 EVALUATOR = "vp.props.c16:ev"
 RULE = (
     "documents = sub-lattices of the universes that parse and scan cleanly, in a line-ending / final-newline / non-ASCII variant chosen by source hash (as is, CR-LF, final newline toggled, "
